@@ -44,6 +44,7 @@ type harnessDecl struct {
 	Bounds  []string
 	Assumes []string
 	Outside []string
+	Patches [][3]string // source patches: repo file, text to replace (must occur exactly once), replacement
 }
 
 var (
@@ -130,6 +131,17 @@ func discover() []harnessDecl {
 						h.Assumes = append(h.Assumes, strings.TrimSpace(t[7:]))
 					case strings.HasPrefix(t, "outside:"):
 						h.Outside = append(h.Outside, strings.TrimSpace(t[8:]))
+					case strings.HasPrefix(t, "patch:"):
+						// patch: <repo file> | <text> | <replacement> : shrinks a size constant of the real
+						// source for this run (overlay regenerated from the current file; the text must
+						// occur exactly once) - a stated bound reduction, reported in the evidence
+						f := strings.Split(t[6:], "|")
+						if len(f) != 3 {
+							fmt.Fprintf(os.Stderr, "ENGINE-ERROR bad patch line in %s: %s\n", p, t)
+							os.Exit(2)
+						}
+						h.Patches = append(h.Patches, [3]string{strings.TrimSpace(f[0]), strings.TrimSpace(f[1]), strings.TrimSpace(f[2])})
+						h.Bounds = append(h.Bounds, fmt.Sprintf("source constant reduced for this run: %s: %q -> %q", strings.TrimSpace(f[0]), strings.TrimSpace(f[1]), strings.TrimSpace(f[2])))
 					case strings.HasPrefix(t, "verif:harness"):
 					default:
 						h.Doc += t + " "
@@ -162,7 +174,7 @@ type overlaySet struct {
 	files map[string]string // virtual path → real path
 }
 
-func buildOverlay(hs []harnessDecl) (*overlaySet, error) {
+func buildOverlay(hs []harnessDecl, selected []harnessDecl) (*overlaySet, error) {
 	ov := &overlaySet{files: map[string]string{}}
 	ov.files[filepath.Join(*repoDir, "pkg/zzverif/zzverif.go")] = filepath.Join(*verifDir, "harness/zzverif/zzverif.go")
 	seen := map[string]bool{}
@@ -172,6 +184,40 @@ func buildOverlay(hs []harnessDecl) (*overlaySet, error) {
 		}
 		seen[h.File] = true
 		ov.files[filepath.Join(*repoDir, h.Dir, "zz_verif_"+filepath.Base(h.File))] = h.File
+	}
+	// source patches (size constants), regenerated from the current file
+	patched := map[string]string{}
+	for _, h := range selected { // only the harnesses that actually run: a patch never leaks into another property's run
+		for _, pt := range h.Patches {
+			target := filepath.Join(*repoDir, pt[0])
+			key := pt[0] + "|" + pt[1] + "|" + pt[2]
+			if seen[key] {
+				continue
+			}
+			seen[key] = true
+			src, ok := patched[target]
+			if !ok {
+				b, err := os.ReadFile(target)
+				if err != nil {
+					return nil, fmt.Errorf("patch of %s: %v", pt[0], err)
+				}
+				src = string(b)
+			}
+			if strings.Count(src, pt[1]) != 1 {
+				return nil, fmt.Errorf("patch of %s: %q occurs %d times (must be exactly once)", pt[0], pt[1], strings.Count(src, pt[1]))
+			}
+			patched[target] = strings.Replace(src, pt[1], pt[2], 1)
+		}
+	}
+	for target, src := range patched {
+		sum := sha256.Sum256([]byte(target + src))
+		dir := filepath.Join(*verifDir, ".cache/patch")
+		os.MkdirAll(dir, 0o755)
+		f := filepath.Join(dir, fmt.Sprintf("%x.go", sum[:8]))
+		if err := os.WriteFile(f, []byte(src), 0o644); err != nil {
+			return nil, err
+		}
+		ov.files[target] = f
 	}
 	// regenerated protobuf layer, if the tree lacks generated code
 	if _, err := os.Stat(filepath.Join(*repoDir, "api/proto/banyandb/common/v1/common.pb.go")); err != nil {
@@ -514,7 +560,7 @@ func runProperty() int {
 		}
 	}
 	// helper files without harness functions in the same harness dir
-	ov, err := buildOverlay(ovHs)
+	ov, err := buildOverlay(ovHs, hs)
 	if err != nil {
 		fmt.Printf("ENGINE-ERROR overlay: %v\n", err)
 		return 2
@@ -991,13 +1037,16 @@ func doReplay(path string) int {
 		return 2
 	}
 	all := discover()
-	var ovHs []harnessDecl
+	var ovHs, hs []harnessDecl
 	for _, h := range all {
 		if h.Dir == rf.Dir {
 			ovHs = append(ovHs, h)
 		}
+		if strings.Contains(","+h.Prop+",", ","+rf.Property+",") { // the run's source patches
+			hs = append(hs, h)
+		}
 	}
-	ov, err := buildOverlay(ovHs)
+	ov, err := buildOverlay(ovHs, hs)
 	if err != nil {
 		fmt.Println("ENGINE-ERROR", err)
 		return 2
